@@ -115,6 +115,30 @@ DEFERRED = {SCHEMA + '::Load', THES + '::Load'}
 SPECIAL_MEMBERS_OK = 'copy/move members rebuild or invalidate the graph themselves'
 
 
+def _sorted_by_weak_order(db, rule):
+    """r3 sort-comparators: std::sort / std::stable_sort need a strict weak ordering (incomparability must be transitive). Reachability in the
+    dependency graph is only a partial order: a and c can both be unrelated to b and still be related to each other, so a sort by
+    `IsReachableFrom` may leave a dependant in front of what it depends on (and is undefined behaviour). A dependency order comes from
+    TopologicalSort; a comparator that asks the graph is reported."""
+    GR = ('IsReachableFrom', 'ConnectionExists', 'ExpandOutputs', 'ExpandInputs', 'InputsFor', 'OutputsFor')
+    n = 0
+    for f in db.functions:
+        if f.rec.get('dependent'):
+            continue
+        for c in f.calls():
+            cs = c.get('cs') or ''
+            if cs not in ('std::sort', 'std::stable_sort', 'std::ranges::sort', 'std::ranges::stable_sort', 'std::partial_sort', 'std::nth_element'):
+                continue
+            n += 1
+            inst = 'sort:%s' % '::'.join(f.name.split('::')[-2:])
+            asks = [x for a in c.get('args', [])[2:] for x in f.walk(f.stmts[a]) if (x.get('cs') or '').startswith('ccl::graph::') and (x.get('cs') or '').split('::')[-1] in GR]
+            if asks:
+                rule.violation(inst, f.loc(c), '%s orders entities with a comparator that asks the graph (`%s`): reachability is a partial order, not the strict weak ordering std::sort requires - constituents that do not depend on each other are "equivalent" to both ends of a dependency, so a dependant can end up re-analysed before what it depends on' % (f.name.split('::')[-1], (asks[0].get('txt') or asks[0].get('cs'))[:60]))
+            else:
+                rule.ok(inst, 'sorted by a total order on the values (%s)' % ('default <' if len(c.get('args', [])) <= 2 else 'comparator without graph queries'), f.loc(c), nontrivial=False)
+    rule.ok('sort-comparators', '%d sorting call(s) in the analysed units, none ordered by graph reachability' % n, '')
+
+
 def deferred_rule(db, r2):
     """C07 r2 (shared with C12 r13): a caller of a deferred loader reaches UpdateState on every path to a successful return"""
     loaders = {SCHEMA + '::Load', THES + '::Load', S + 'RSCore::Load', S + 'RSForm::Load', S + 'RSModel::Load'}
@@ -249,6 +273,7 @@ def _rest(db, rep, M):
         else:
             r3.violation(inst, '%s:%d' % (f.file, f.line), 'lazy rebuild of %s is not Clear + SetValid + UpdateFor for every constituent' % gfield)
     _on_term_change(db, r3)
+    _sorted_by_weak_order(db, r3)
 
     # ------------------------------------------------------------------ r4
     r4 = rep.rule('r4', 'INFO: ParseCst resets the record before filling it and fills it from the same auditor run; only listed functions write `info`', 3)
